@@ -57,7 +57,8 @@ def run_shard(shard, ctx):
                      "pax-x-path", "pax-x-size", "pax-X-path", "pax-X-size", "pax-g-comment", "pax-x-before-ustar",
                      "pax-x-before-dir-after-file", "links-visor", "links-ustar", "links-mixed", "regular-typeflags",
                      "relinked-visor", "relinked-ustar", "open-by-name-after-fileobj", "pax-size-override-ustar", "pax-size-override-between-visor",
-                     "pax-size-before-nonregular-with-offset", "data-inside-header-area"):
+                     "pax-size-before-nonregular-with-offset", "data-inside-header-area", "names-with-magic-text",
+                     "ustar-prefix-lengths"):
             run_case({"special": what}, ctx)
         return
     if shard.get("high"):
@@ -258,6 +259,49 @@ def _case_special(case, ctx):
                 img = bytes(heads).ljust(4096, b"\0") + b"L" * 600
                 exp = [("etc/hostname-of-the-box", False, img[4:13]), ("etc/b", False, img[511:518]), ("etc/c", False, img[1281:1286]),
                        ("etc/last", False, b"L" * 600)]
+                got = _listing(vmtar.open(fileobj=io.BytesIO(img)))
+            elif what == "names-with-magic-text":
+                # the words that mark a header as visor / ustar, inside names and link targets of either kind of member
+                words = ["visor  ", "ustar  ", "ustar", "visor", "ustar00"]
+                heads = bytearray()
+                data0 = 16384
+                area = bytearray()
+                exp = []
+                for i, w in enumerate(words):
+                    dat = bytes([97 + i]) * (600 + i)
+                    nm = f"etc/{w}readme{i}.txt"
+                    heads += B.hdr(nm, len(dat), offset_data=data0 + len(area))
+                    area += dat.ljust(4096, b"\xEE")
+                    exp.append((nm, False, dat))
+                    nm2 = f"usr/{w}"
+                    heads += B.hdr(nm2, len(dat), visor=False) + B.pad512(dat)
+                    exp.append((nm2, False, dat))
+                    nm3 = f"lnk/l{i}"
+                    heads += B.hdr(nm3, 0, typ=b"2", linkname=f"../etc/{w}readme{i}.txt")
+                    exp.append((nm3, False, None))
+                heads += b"\0" * 1024
+                assert len(heads) <= data0
+                img = bytes(heads).ljust(data0, b"\0") + bytes(area)
+                got = _listing(vmtar.open(fileobj=io.BytesIO(img)))
+            elif what == "ustar-prefix-lengths":
+                # plain ustar members whose prefix field is filled up to its last byte (155), between visor members; visor
+                # members with the longest prefix their header leaves room for (151)
+                heads = bytearray()
+                data0 = 32768
+                area = bytearray()
+                exp = []
+                for i, plen in enumerate((1, 100, 150, 151, 152, 153, 154, 155)):
+                    pre = ("p%03d/" % plen + "q" * 200)[:plen]
+                    dat = bytes([65 + i]) * (513 + i)
+                    heads += B.hdr(f"u{i}", len(dat), visor=False, prefix=pre) + B.pad512(dat)
+                    exp.append((pre + f"/u{i}", False, dat))
+                    vpre = pre[:151]
+                    heads += B.hdr(f"v{i}", len(dat), offset_data=data0 + len(area), prefix=vpre)
+                    area += dat.ljust(4096, b"\xEE")
+                    exp.append((vpre + f"/v{i}", False, dat))
+                heads += b"\0" * 1024
+                assert len(heads) <= data0
+                img = bytes(heads).ljust(data0, b"\0") + bytes(area)
                 got = _listing(vmtar.open(fileobj=io.BytesIO(img)))
             elif what == "regular-typeflags":
                 # every typeflag that denotes a regular file ('0', NUL, '7' contiguous) as visor members with out-of-line data,
